@@ -351,6 +351,9 @@ Definition c14_verdict (cls : N) (e a p v : bytes) (accepted : bool) (out : opti
                  (if escaped_form v rest then [] else [(CL_query_escaped, d16)])
                else
                  (if forallb normalized_byte rest && pct_ok rest && norm_rel v rest then []
+                  else if escaped_form v rest then []   (* fully percent-encoded: stricter than required (the engine may
+                                                           treat the attribute as a TrustedResourceURL where the reviewed
+                                                           policy asks for a URL only, e.g. link rel="alternate stylesheet") *)
                   else [(CL_normalised, d16)])) ++
               (if opt_bytes_eqb (uri_scheme val) (uri_scheme dp) &&
                   opt_runes_eqb (whatwg_scheme (decode_runes val)) (whatwg_scheme (decode_runes dp))
